@@ -74,6 +74,13 @@ CHECKS = {
             'three report histories and compared.',
             'Introductory subset = what G-CS1 generates plus the builtin/method sweep; for arbitrary syntax only '
             '"returns, deterministic, idempotent, lines in range" is asserted.', '3/C18'),
+    'C06': ('Hypothesis-generated typed CS1 programs x input queues x function calls with awkward argument values, '
+            'differential against the same source exec\'d as __main__ by unmodified CPython in the same process (thorough: '
+            'reference itself cross-checked against python -I subprocesses)',
+            'About 4.6k program/call cases per quick run (450k thorough); stdout, every student global, outcome class and '
+            'line, call results and per-call output are compared.',
+            'In-process exec is the reference; programs are limited to the CS1 subset G-CS1 builds; prompt echoes are '
+            'removed using marked prompts and a calibrated echo suffix.', '3/C06'),
 }
 
 NOT_YET = {}
